@@ -122,6 +122,8 @@ class Ctx:
         self.buckets = {}
         self.bucket_hits = Counter()
         self.t0 = time.time()
+        self.t_case = time.time()
+        self.current = None
 
     # -- direct reporting (enumerated macro-cases report micro-cases themselves) ----
     def report(self, sub, case, v, variant="-"):
@@ -232,6 +234,8 @@ _BREADCRUMB = os.environ.get("VERIF_BREADCRUMB")
 
 def run_case(sub, case, ctx):
     """Run one case; returns None if fine, else the Violation (never raises Violation)."""
+    ctx.t_case = time.time()
+    ctx.current = (sub.name, case)
     if _BREADCRUMB:
         # so that the parent can attribute a hard crash (SIGSEGV in JIT code) to the case that caused it
         with open(_BREADCRUMB, "w") as fh:
